@@ -1,4 +1,5 @@
 import DicomModel.Lemmas.RefReader6
+import DicomModel.Lemmas.LazySteps
 /-
 C06: on the reference encoding of a canonical tree the LAZY reader (every token materialised) yields the
 tree's tokens too — by transferring every step of the eager run through the lock-step simulation
@@ -10,8 +11,8 @@ namespace Dicom.Ref
 open Dicom.LE
 
 theorem lazy_step_of_stepTo {s s' : RState} {t : Token} (h : StepTo s t s') :
-    ∃ t', (toLazy s).nextOwned = (some (.ok t'), toLazy s') ∧ TokRel t t' := by
-  have hs := step_sim s h.2 0
+    (toLazy s).nextOwned = (some (.ok (normTok s.dec.ts.bigEndian t)), toLazy s') := by
+  have hs := step_sim s h.2.1 0
   rw [h.1 0] at hs
   rcases hl : (toLazy s).nextOwned with ⟨lr, l'⟩
   rw [hl] at hs
@@ -23,8 +24,8 @@ theorem lazy_step_of_stepTo {s s' : RState} {t : Token} (h : StepTo s t s') :
     | ok t' =>
       simp only [StepRes] at hs
       obtain ⟨h1, h2⟩ := hs
-      subst h2
-      exact ⟨t', rfl, h1⟩
+      subst h2; subst h1
+      rfl
 
 theorem lazyTokens_of_run {s s' : RState} {toks : List Token} (h : Run s toks s')
     (hend : ∃ l'', (toLazy s').nextOwned = (none, l'')) :
@@ -42,9 +43,9 @@ theorem lazyTokens_of_run {s s' : RState} {toks : List Token} (h : Run s toks s'
     cases fuel with
     | zero => simp at hf
     | succ k =>
-      obtain ⟨t', h1, h2⟩ := lazy_step_of_stepTo st
+      have h1 := lazy_step_of_stepTo st
       obtain ⟨toks', h3, h4⟩ := ih hend k (by simp at hf; omega)
-      refine ⟨t' :: toks', ?_, ⟨h2, h4⟩⟩
+      refine ⟨normTok s.dec.ts.bigEndian t :: toks', ?_, ⟨⟨s.dec.ts.bigEndian, rfl⟩, h4⟩⟩
       simp only [lazyTokens, h1, h3]
 
 /-- the end of the data set is the end for the lazy reader as well -/
@@ -73,5 +74,23 @@ theorem lazyTokens_ref (ts : Syntax) (dict : Tag → Option VR) (t : Elems)
   have r := run_elems ts dict hd t hc [] 0 false [] (fun f hf => by simp at hf) trivial
   rw [List.append_nil] at r
   exact lazyTokens_of_run r (lazy_at_end ts dict _ _) fuel hf
+
+/-! ### annotated lazy runs from eager runs -/
+open Dicom.LS
+
+theorem lstep_of_stepTo {s s' : RState} {t : Token} (h : StepTo s t s') :
+    LStep (toLazy s) (normTok s.dec.ts.bigEndian t) (toLazy s') :=
+  lstep_of_nextOwned rfl rfl (by simpa [toLazy] using h.2.2.2) (by simpa [toLazy] using h.2.2.1) (lazy_step_of_stepTo h)
+
+/-- every step of an eager run is an annotated step of the lazy reader (tokens normalised) -/
+theorem lrun_of_run {s s' : RState} {toks : List Token} (h : Run s toks s') (ts : Syntax) (hts : s.dec.ts = ts) :
+    LRun (toLazy s) (toks.map (normTok ts.bigEndian)) (toLazy s') ∧ s'.dec.ts = ts := by
+  induction h with
+  | nil s => exact ⟨.nil _, hts⟩
+  | @cons s s1 s2 t tl st _ ih =>
+    have h1 := lstep_of_stepTo st
+    rw [hts] at h1
+    obtain ⟨r, e⟩ := ih (st.2.2.1.trans hts)
+    exact ⟨.cons h1 r, e⟩
 
 end Dicom.Ref
